@@ -1,7 +1,144 @@
-/- Driver glue for C15: case lines `c15.<sub> <args…> | <impl…>` (stub until the property is built) -/
-import FileD.Prelude.Tok
-namespace FileD.DrvC15
+/-
+  Driver glue for C15. Case lines (tokens; trees in JTree prefix form, bytes hex):
 
-def handle (_cmd : String) (_args _impl : List String) : Option (String × String) := none
+    c15.join <negate> <max> <startRe> <contRe> <npath> <key>… <n> item…
+        item = T <tag> | E <tag> <startOK> <contOK> <tree>
+    c15.jt <max> <ntpl> (<name> <negate>)… <npath> <key>… <n> item…
+        item = T <tag> | E <tag> <starts: ntpl bits> <conts: ntpl bits> <tree>
+    result (both) = call… <end>
+        call = R <res> <nprop> (<tag> <tree>)… (N | E <tag> <tree>)
+        end  = ok | panic:<kind>
+
+  The regular expressions (`c15.join`) and template names (`c15.jt`) are for the harness only:
+  the model sees the oracle bits the harness computed with them.
+-/
+import FileD.Prelude.Tok
+import FileD.Model.Join
+import FileD.Spec.C15
+namespace FileD.DrvC15
+open FileD Tok FileD.Join
+
+abbrev P (α : Type) := List String → Option (α × List String)
+
+def pNat : P Nat | t :: r => (nat? t).map (·, r) | [] => none
+def pBool : P Bool | t :: r => (bool? t).map (·, r) | [] => none
+def pBytes : P Bytes | t :: r => (bytes? t).map (·, r) | [] => none
+def pTree : P JTree := JTree.parse?
+
+def pMany {α} (p : P α) : Nat → P (List α)
+  | 0, ts => some ([], ts)
+  | n+1, ts => do
+    let (x, r) ← p ts
+    let (xs, r') ← pMany p n r
+    pure (x :: xs, r')
+
+def pCounted {α} (p : P α) : P (List α) := fun ts => do
+  let (n, r) ← pNat ts
+  pMany p n r
+
+def pItem : P In
+  | "T" :: r => do
+    let (t, r) ← pNat r
+    pure (.timeout t, r)
+  | "E" :: r => do
+    let (t, r) ← pNat r
+    let (s, r) ← pBool r
+    let (c, r) ← pBool r
+    let (tr, r) ← pTree r
+    pure (.ev ⟨t, tr, s, c⟩, r)
+  | _ => none
+
+def pTItem (ntpl : Nat) : P TIn
+  | "T" :: r => do
+    let (t, r) ← pNat r
+    pure (.timeout t, r)
+  | "E" :: r => do
+    let (t, r) ← pNat r
+    let (ss, r) ← pMany pBool ntpl r
+    let (cs, r) ← pMany pBool ntpl r
+    let (tr, r) ← pTree r
+    pure (.ev ⟨t, tr, ss, cs⟩, r)
+  | _ => none
+
+def pOEv : P OEv := fun ts => do
+  let (t, r) ← pNat ts
+  let (tr, r) ← pTree r
+  pure (⟨t, tr⟩, r)
+
+def pRes : P Res
+  | "pass" :: r => some (.pass, r)
+  | "collapse" :: r => some (.collapse, r)
+  | "discard" :: r => some (.discard, r)
+  | "hold" :: r => some (.hold, r)
+  | "break" :: r => some (.brk, r)
+  | _ => none
+
+def pOut : P Out
+  | "R" :: r => do
+    let (res, r) ← pRes r
+    let (ps, r) ← pCounted pOEv r
+    match r with
+    | "N" :: r => pure (⟨res, ps, none⟩, r)
+    | "E" :: r => do
+      let (o, r) ← pOEv r
+      pure (⟨res, ps, some o⟩, r)
+    | _ => none
+  | _ => none
+
+/-- the implementation's calls up to the end marker; `panicked` = the marker is not `ok` -/
+def pImpl : Nat → List String → Option (List Out × Bool)
+  | _, ["ok"] => some ([], false)
+  | _, [t] => if t.startsWith "panic:" then some ([], true) else none
+  | 0, _ => none
+  | fuel+1, ts => do
+    let (o, r) ← pOut ts
+    let (os, p) ← pImpl fuel r
+    pure (o :: os, p)
+
+def encOEv (o : OEv) : String := unwords [toString o.tag, o.root.enc]
+
+def encOut (o : Out) : String :=
+  unwords (["R", o.res.tok, toString o.prop.length] ++ o.prop.map encOEv ++
+    [match o.self with | none => "N" | some s => "E " ++ encOEv s])
+
+def encTrace (outs : List Out) (fin : GoM α) : String :=
+  unwords (outs.map encOut ++ [match fin with | .ok _ => "ok" | .error p => panicTok p])
+
+def handle (cmd : String) (args impl : List String) : Option (String × String) :=
+  match cmd with
+  | "c15.join" => do
+    let (neg, r) ← pBool args
+    let (max, r) ← pNat r
+    let (_, r) ← pBytes r
+    let (_, r) ← pBytes r
+    let (path, r) ← pCounted pBytes r
+    let (items, r) ← pCounted pItem r
+    if r ≠ [] then none
+    let cfg : Cfg := ⟨path, max, neg⟩
+    let t := run cfg St.init items
+    let m := encTrace t.outs t.fin
+    let p := match pImpl (impl.length + 1) impl with
+      | some (outs, panicked) => if SpecC15.holds cfg items outs panicked then "ok" else "fail"
+      | none => "bad-impl"
+    pure (m, p)
+  | "c15.jt" => do
+    let (max, r) ← pNat args
+    let (ntpl, r) ← pNat r
+    let (tpls, r) ← pMany (fun ts => do
+        let (_, r) ← pBytes ts
+        let (n, r) ← pBool r
+        pure (n, r)) ntpl r
+    let (path, r) ← pCounted pBytes r
+    let (items, r) ← pCounted (pTItem ntpl) r
+    if r ≠ [] then none
+    let tcfg : TCfg := ⟨path, max, tpls⟩
+    let t := trun tcfg TSt.init items
+    let m := encTrace t.outs t.fin
+    let p := match pImpl (impl.length + 1) impl with
+      | some (outs, panicked) =>
+        if SpecC15.holds tcfg.join (SpecC15.resolve tcfg (-1) items) outs panicked then "ok" else "fail"
+      | none => "bad-impl"
+    pure (m, p)
+  | _ => none
 
 end FileD.DrvC15
